@@ -137,6 +137,12 @@ def generate(rng, tier, mode="default"):
             for plan in ("0", "10", "110", "1110", "1101", "11011"):
                 out.append([hdr(cap=cap, mem=mem, plan=plan)] + fill[:4] + ["copy_deep", "trim", "filter 2 1", "END"])
                 out.append([hdr("queue", cap=cap, mem=mem, plan=plan), "enqueue 1", "enqueue 2", "new2 3", "enqueue2 5", "enqueue 3", "poll", "END"])
+    # (c0) zip iterator add under every single refusal: one deque exactly full, the other with room (both orders)
+    for swap in (0, 1):
+        for k in range(0, 9):
+            plan = "1" * k + "0"
+            pre = ["add_last 1", "add_last 2", "copy_shallow", "add_last 3", "add_last 4"] + (["swap"] if swap else [])
+            out.append([hdr(cap=4, plan=plan)] + pre + ["zip_init", "zip_next", "zip_add 8 9", "zip_next", "zip_add 6 7", "END"])
     # (c) boundary / malformed arguments on empty, single and full containers
     for cap, first, size in [(1, 0, 0), (1, 0, 1), (4, 3, 0), (4, 2, 1), (4, 1, 4), (8, 6, 8), (8, 7, 5)]:
         for i in [0, 1, size - 1 if size else 2**64 - 1, size, size + 1] + BIG:
